@@ -9,6 +9,8 @@ O14 rejections are no-ops; accepted pipelines export (C14)
 O16 re-rooting                                 (C16)
 """
 
+import json
+
 import sim.bootstrap  # noqa: F401
 import polars as pl
 
@@ -182,6 +184,41 @@ class OraclesMixin:
                         tail="/".join(pt.m.verbs[-3:]),
                         cone_uses_pool=any(self.step_uses_pooled_expr(st) or st["op"] == "apply_pipe" for st in steps),
                     )
+
+    def rejects_deleted_oracle(self):
+        """O14.3: the run with all rejected steps deleted yields identical results for every table"""
+        from sim.hist import HistMachine, public_steps
+        from sim.profiles import PROFILES
+
+        rejected = {json.loads(ln)["i"] for ln in self.log if json.loads(ln)["out"].startswith("rejected:")}
+        if not rejected:
+            return
+        steps = [st for st in public_steps(self.steps) if st["i"] not in rejected and st["op"] not in ("observe", "collect_lazy", "arm_engine")]
+        cfg = dict(self.cfg)
+        cfg.update(profile=PROFILES["none"], profile_name="none", digest_only=True, population="clean")
+        inner = HistMachine(cfg)
+        try:
+            inner.replay(steps)
+        finally:
+            inner.close()
+            self.clock.install()
+        self.stats["rejects_deleted_replays"] += 1
+        for tid, pt in self.tables.items():
+            ipt = inner.tables.get(tid)
+            if ipt is None:
+                if pt.first_digest:
+                    self.stats["rejects_deleted_missing"] += 1
+                continue
+            for rep, d in pt.first_digest.items():
+                if isinstance(rep, str) and rep in ipt.first_digest:
+                    self.stats["rejects_deleted_compared"] += 1
+                    if ipt.first_digest[rep] != d:
+                        self.violate(
+                            "C14",
+                            "O14.3",
+                            f"table {tid} ({rep}) differs between the run with {len(rejected)} rejected calls and the same run without them: a rejected call was not a no-op",
+                            rep=rep,
+                        )
 
     # ------------------------------------------------------------------------------
     # after a table was produced
@@ -458,7 +495,7 @@ class OraclesMixin:
                 if which == "probe" and self.fam & {"O9", "O6", "O16"}:
                     self.violate(prop, "O9.1", f"using an in-scope reference after `{op}` raised {cls} on {rep}: {str(res[2])[:160]}", cls=cls, op=op, rep=rep)
                 if which == "export":
-                    if rep == "polars" and "O14" in self.fam:
+                    if rep == "polars" and "O14" in self.fam and cls not in ("NotSupportedError", "SubqueryError", "SimInterrupt"):
                         self.violate("C14", "O14.4", f"pipeline accepted by every verb does not export on polars: {cls}: {str(res[2])[:160]}", cls=cls, op=op, tail=tail)
                     if "O6" in self.fam and op == "join":
                         self.violate("C06", "O6.export", f"join result does not export on {rep}: {cls}: {str(res[2])[:160]}", cls=cls, rep=rep, how=step.get("how"))
